@@ -1352,6 +1352,11 @@ func (e *Engine) fieldAddr(p *Path, fr *Frame, in *ssa.FieldAddr) []*Path {
 	base := e.get(fr, in.X)
 	owner := in.X.Type().Underlying().(*types.Pointer).Elem()
 	key, f := fieldKey(owner, in.Field)
+	if gp, ok := base.(*PtrV); ok && gp.Kind == PGlobal && isAggregate(globalElemType(gp.Glob)) {
+		// a package-level struct: its fields live in the field heaps at the global's fixed address
+		e.importConstGlobal(p.st, gp.Glob)
+		base = globalRef(gp.Glob)
+	}
 	switch b := base.(type) {
 	case *Term:
 		forks := e.runtimePanic(p, "nil-deref", in.Pos(), Ne(b, BVU(0, 64)))
@@ -1574,7 +1579,7 @@ func (s *State) mapState(ref *Term, mt *types.Map) *MapState {
 		val = v
 	} else {
 		val = buildShape(mt.Elem(), func(sfx string, so *Sort) *Term {
-			return Var("H:"+key+".val"+sfx, ArraySort(RefSort, ArraySort(ks, so)))
+			return Var("H:"+key+".val"+s.mapEpoch()+sfx, ArraySort(RefSort, ArraySort(ks, so)))
 		}, "")
 		s.Heaps[key+".val"] = val
 	}
@@ -1585,9 +1590,16 @@ func (s *State) heapRaw(key string, so *Sort) *Term {
 	if v, ok := s.Heaps[key]; ok {
 		return v.(*Term)
 	}
-	v := Var("H:"+key, so)
+	v := Var("H:"+key+s.mapEpoch(), so)
 	s.Heaps[key] = v
 	return v
+}
+
+func (s *State) mapEpoch() string {
+	if s.EpochMaps != "" {
+		return s.EpochMaps
+	}
+	return s.Epoch
 }
 
 func (s *State) setMapState(ref *Term, mt *types.Map, ms *MapState) {
